@@ -82,7 +82,20 @@ pub fn rewrite_item(item: &mut Item, unit: &Unit, log: &mut Log, lifted: &mut Ve
                 }
             }
         }
-        Item::Trait(_) => {}
+        Item::Trait(t) => {
+            t.attrs.clear();
+            t.vis = parse_quote!(pub);
+            if !t.supertraits.is_empty() {
+                log.entries.push(("R7".into(), t.ident.to_string(), "supertrait bounds (fmt::Debug) dropped".into()));
+            }
+            t.supertraits.clear();
+            t.colon_token = None;
+            for ti in t.items.iter_mut() {
+                if let TraitItem::Fn(f) = ti {
+                    f.attrs.clear();
+                }
+            }
+        }
         _ => {}
     }
 }
@@ -244,6 +257,53 @@ fn rewrite_fn(name: &str, sig: &mut Signature, block: &mut Block, unit: &Unit, l
             let dup = sig.inputs.iter().any(|a| matches!(a, FnArg::Typed(pt) if pt.pat.to_token_stream().to_string() == spec.param));
             if !dup {
                 sig.inputs.push(arg);
+            }
+        }
+    }
+    // R28: `mut self` by value (unsupported by Verus) is `let mut __self = self;` with every `self` of the body renamed
+    if let Some(FnArg::Receiver(r)) = sig.inputs.first_mut() {
+        if r.reference.is_none() && r.mutability.is_some() {
+            *r = parse_quote!(self);
+            struct SelfRen;
+            impl VisitMut for SelfRen {
+                fn visit_ident_mut(&mut self, i: &mut Ident) {
+                    if i == "self" {
+                        *i = ident("__self");
+                    }
+                }
+                fn visit_macro_mut(&mut self, m: &mut Macro) {
+                    // `self` inside macro arguments (vec!, debug_assert!)
+                    let ts = m.tokens.to_string();
+                    if ts.contains("self") {
+                        let replaced = ts.replace("self", "__self");
+                        if let Ok(t) = replaced.parse::<TokenStream>() {
+                            m.tokens = t;
+                        }
+                    }
+                }
+            }
+            SelfRen.visit_block_mut(block);
+            let old = std::mem::take(&mut block.stmts);
+            let mut stmts = parse_stmts(quote!(let mut __self = self;));
+            stmts.extend(old);
+            block.stmts = stmts;
+            log.entries.push(("R28".into(), name.to_string(), "`mut self` -> `let mut __self = self;`".into()));
+        }
+    }
+    // R1 (callers): parameters through which a `&mut self` method (after RefCell stripping) is reached become `&mut`
+    if let Some(tbl) = unit.opts.get("mut_params").and_then(|v| v.as_table()) {
+        let names: Vec<String> = tbl.get(name).or_else(|| tbl.get(&short)).and_then(|v| v.as_array()).map(|a| a.iter().filter_map(|x| x.as_str().map(|s| s.to_string())).collect()).unwrap_or_default();
+        for a in sig.inputs.iter_mut() {
+            if let FnArg::Typed(pt) = a {
+                let pn = pt.pat.to_token_stream().to_string();
+                if names.iter().any(|n| *n == pn) {
+                    if let Type::Reference(r) = &mut *pt.ty {
+                        if r.mutability.is_none() {
+                            r.mutability = Some(Default::default());
+                            log.entries.push(("R1".into(), name.to_string(), format!("parameter `{pn}`: & -> &mut (reaches a RefCell-stripped method)")));
+                        }
+                    }
+                }
             }
         }
     }
@@ -450,6 +510,43 @@ impl<'a> Body<'a> {
                         }
                     }
                 }
+                if method == "is_whitespace" && m.args.is_empty() {
+                    // R18: vstd already carries a (different) specification of char::is_whitespace; the call goes through a wrapper
+                    let r = &m.receiver;
+                    self.note("R18", "`c.is_whitespace()` -> char_is_ws(c)".into());
+                    *e = parse_expr(quote!(char_is_ws(#r)));
+                    return;
+                }
+                if method == "collect" && m.args.is_empty() {
+                    // R6b: `E.iter().map(|_| C).collect::<Vec<_>>()` with a constant C -> `vec![C; E.len()]`
+                    if let Expr::MethodCall(mp) = &*m.receiver {
+                        if mp.method == "map" && mp.args.len() == 1 {
+                            if let (Expr::Closure(c), Expr::MethodCall(it)) = (&mp.args[0], &*mp.receiver) {
+                                if it.method == "iter" && c.inputs.len() == 1 && matches!(&c.inputs[0], Pat::Wild(_)) && matches!(&*c.body, Expr::Path(_)) {
+                                    let (src, body) = (&it.receiver, &c.body);
+                                    self.note("R6", "`E.iter().map(|_| C).collect()` -> `vec![C; E.len()]`".into());
+                                    *e = parse_expr(quote!(vec![#body; #src.len()]));
+                                    return;
+                                }
+                            }
+                        }
+                    }
+                }
+                if method == "unwrap_or" && m.args.len() == 1 {
+                    // R18: `c.to_lowercase().next().unwrap_or(D)` -> char_to_lower(c, D)
+                    if let Expr::MethodCall(nx) = &*m.receiver {
+                        if nx.method == "next" {
+                            if let Expr::MethodCall(tl) = &*nx.receiver {
+                                if tl.method == "to_lowercase" {
+                                    let (c, d) = (&tl.receiver, &m.args[0]);
+                                    self.note("R18", "`c.to_lowercase().next().unwrap_or(d)` -> char_to_lower(c, d)".into());
+                                    *e = parse_expr(quote!(char_to_lower(*#c, #d)));
+                                    return;
+                                }
+                            }
+                        }
+                    }
+                }
                 if method == "unwrap_or" && m.args.len() == 1 {
                     // R16: `O.map(|p| F).unwrap_or(D)` -> `match O { Some(p) => F, None => D }` (definition of map / unwrap_or)
                     if let Expr::MethodCall(mp) = &*m.receiver {
@@ -603,6 +700,9 @@ impl<'a> Body<'a> {
                 if let Some(v) = self.rule_zip(fl) {
                     return v;
                 }
+                if let Some(v) = self.rule_mut_iter(fl) {
+                    return v;
+                }
                 if let Some(v) = self.rule_slice_iter(fl) {
                     return v;
                 }
@@ -680,7 +780,9 @@ impl<'a> Body<'a> {
                     return v;
                 }
                 // R17b: `x.m(|..| ..);` -> `let __cloK = |..| ..; x.m(__cloK);` when the unit file asks for it
-                let key = format!("{}#{}", self.func.rsplit("::").next().unwrap(), self.closure_counter);
+                let qkey = format!("{}#{}", self.func, self.closure_counter);
+                let skey = format!("{}#{}", self.func.rsplit("::").next().unwrap(), self.closure_counter);
+                let key = if self.unit.closure_sig.contains_key(&qkey) { qkey } else { skey };
                 if self.unit.closure_sig.get(&key).map(|c| c.bind).unwrap_or(false) && mc.args.len() == 1 {
                     if let Expr::Closure(_) = &mc.args[0] {
                         let name = ident(&format!("__clo{}", self.closure_counter));
@@ -997,6 +1099,27 @@ impl<'a> Body<'a> {
                     for #i in 0..#end { let #m = &#src[#i]; #var += #body; }
                 ))
             }
+            "tw" => {
+                let s0 = ident(&format!("__src{k}"));
+                self.note("R9", format!("{}.iter().take_while(|&&{}| ..).count() -> counting loop", src.to_token_stream(), m));
+                parse_stmts(quote!(
+                    let #s0 = &#src;
+                    let mut #var: usize = 0;
+                    loop { if #var >= #s0.len() { break; } let #m = #s0[#var]; if !(#body) { break; } #var += 1; }
+                ))
+            }
+            "rtw" => {
+                let s0 = ident(&format!("__src{k}"));
+                let cap = dflt.clone().unwrap();
+                let capv = ident(&format!("__cap{k}"));
+                self.note("R10", format!("{}.iter().rev().take_while(|&&{}| ..).take(K).count() -> counting loop from the end", src.to_token_stream(), m));
+                parse_stmts(quote!(
+                    let #s0 = &#src;
+                    let #capv = #cap;
+                    let mut #var: usize = 0;
+                    loop { if #var >= #capv || #var >= #s0.len() { break; } let #m = #s0[#s0.len() - 1 - #var]; if !(#body) { break; } #var += 1; }
+                ))
+            }
             "count" => {
                 self.note("R16", format!("{}.iter().filter(|{}| ..).count() -> counting loop", src.to_token_stream(), m));
                 parse_stmts(quote!(
@@ -1020,6 +1143,70 @@ impl<'a> Body<'a> {
         let mut out = pre;
         out.push(st);
         Some(out)
+    }
+
+    /// R4m: `for x in &mut V`, `for (i, x) in V.iter_mut().enumerate()`, `for (&a, b) in &mut A.iter().zip(&mut B)` -> index loops
+    /// that re-borrow the element(s) mutably in each iteration
+    fn rule_mut_iter(&mut self, fl: &ExprForLoop) -> Option<Vec<Stmt>> {
+        let body = &fl.body.stmts;
+        let k = self.counter;
+        let (end, i) = (ident(&format!("__end{k}")), ident(&format!("__i{k}")));
+        // (1) for x in &mut V
+        if let Expr::Reference(r) = &*fl.expr {
+            if r.mutability.is_some() {
+                if let Expr::MethodCall(z) = strip_paren(&r.expr) {
+                    // (3) for (&a, b) in &mut A.iter().zip(&mut B)
+                    if z.method == "zip" && z.args.len() == 1 {
+                        let Expr::MethodCall(ia) = &*z.receiver else { return None };
+                        if ia.method != "iter" {
+                            return None;
+                        }
+                        let Expr::Reference(rb) = &z.args[0] else { return None };
+                        rb.mutability?;
+                        let Pat::Tuple(pt) = &*fl.pat else { return None };
+                        let Pat::Reference(pa) = &pt.elems[0] else { return None };
+                        let (pa, pb) = (&pa.pat, &pt.elems[1]);
+                        let (a, b) = (&ia.receiver, &rb.expr);
+                        self.counter += 1;
+                        self.note("R4m", "for (&a, b) in &mut A.iter().zip(&mut B) -> index loop to the shorter length".into());
+                        return Some(parse_stmts(quote!(
+                            let #end = vmin(#a.len(), #b.len());
+                            for #i in 0..#end { let #pa = #a[#i]; let #pb = &mut #b[#i]; #(#body)* }
+                        )));
+                    }
+                    return None;
+                }
+                if is_place(&r.expr) {
+                    let v = &r.expr;
+                    let pat = &fl.pat;
+                    self.counter += 1;
+                    self.note("R4m", format!("for {} in &mut {} -> index loop", pat.to_token_stream(), v.to_token_stream()));
+                    return Some(parse_stmts(quote!(
+                        let #end = #v.len();
+                        for #i in 0..#end { let #pat = &mut #v[#i]; #(#body)* }
+                    )));
+                }
+            }
+        }
+        // (2) for (i, x) in V.iter_mut().enumerate()
+        if let Expr::MethodCall(en) = &*fl.expr {
+            if en.method == "enumerate" {
+                if let Expr::MethodCall(im) = &*en.receiver {
+                    if im.method == "iter_mut" {
+                        let Pat::Tuple(pt) = &*fl.pat else { return None };
+                        let (pi, px) = (&pt.elems[0], &pt.elems[1]);
+                        let v = &im.receiver;
+                        self.counter += 1;
+                        self.note("R4m", format!("for ({}, {}) in {}.iter_mut().enumerate() -> index loop", pi.to_token_stream(), px.to_token_stream(), v.to_token_stream()));
+                        return Some(parse_stmts(quote!(
+                            let #end = #v.len();
+                            for #pi in 0..#end { let #px = &mut #v[#pi]; #(#body)* }
+                        )));
+                    }
+                }
+            }
+        }
+        None
     }
 
     /// R16: for (a, b) in A.iter().zip(B.iter()) { .. }
@@ -1074,7 +1261,7 @@ impl<'a> Body<'a> {
         let mut calls: Vec<(Ident, Expr)> = vec![];
         let mut items: Vec<Item> = vec![];
         for c in &closures {
-            let spec = self.unit.lift.iter().find(|l| l.func == short && l.closure == ordinal)?.clone();
+            let spec = self.unit.lift.iter().find(|l| (l.func == short || l.func == self.func) && l.closure == ordinal)?.clone();
             let mut f: ItemFn = syn::parse_str(&format!("fn {}({}) -> {} {{ }}", spec.name, spec.params, spec.ret)).unwrap_or_else(|e| fail(&format!("bad lift spec {}: {e}", spec.name)));
             let mut body: Block = match &*c.body {
                 Expr::Block(b) => b.block.clone(),
@@ -1241,12 +1428,57 @@ fn match_chain(e: &Expr) -> Option<(String, Expr, Ident, Expr, Option<Expr>)> {
         return Some(("sum".into(), iter_src(&map.receiver)?, one_param(c)?, (*c.body).clone(), ty));
     }
     if top.method == "count" && top.args.is_empty() {
-        let Expr::MethodCall(fil) = &*top.receiver else { return None };
-        if fil.method != "filter" || fil.args.len() != 1 {
-            return None;
+        if let Expr::MethodCall(fil) = &*top.receiver {
+            if fil.method == "filter" && fil.args.len() == 1 {
+                let Expr::Closure(c) = &fil.args[0] else { return None };
+                return Some(("count".into(), iter_src(&fil.receiver)?, one_param(c)?, (*c.body).clone(), None));
+            }
         }
-        let Expr::Closure(c) = &fil.args[0] else { return None };
-        return Some(("count".into(), iter_src(&fil.receiver)?, one_param(c)?, (*c.body).clone(), None));
+    }
+    if top.method == "count" && top.args.is_empty() {
+        // R9: S.iter().take_while(|&&c| P).count()      R10: S.iter().rev().take_while(|&&c| P).take(K).count()
+        let mut cur: &Expr = &top.receiver;
+        let mut cap: Option<Expr> = None;
+        if let Expr::MethodCall(tk) = cur {
+            if tk.method == "take" && tk.args.len() == 1 {
+                cap = Some(tk.args[0].clone());
+                cur = &tk.receiver;
+            }
+        }
+        if let Expr::MethodCall(tw) = cur {
+            if tw.method == "take_while" && tw.args.len() == 1 {
+                if let Expr::Closure(c) = &tw.args[0] {
+                    if c.inputs.len() == 1 {
+                        // pattern |&&ch| or |ch|
+                        let mut pat = c.inputs[0].clone();
+                        let mut derefs = 0;
+                        while let Pat::Reference(r) = pat {
+                            pat = (*r.pat).clone();
+                            derefs += 1;
+                        }
+                        if let Pat::Ident(pi) = pat {
+                            let mut src: &Expr = &tw.receiver;
+                            let mut rev = false;
+                            if let Expr::MethodCall(rv) = src {
+                                if rv.method == "rev" && rv.args.is_empty() {
+                                    rev = true;
+                                    src = &rv.receiver;
+                                }
+                            }
+                            if let Expr::MethodCall(it) = src {
+                                if it.method == "iter" && it.args.is_empty() && derefs == 2 {
+                                    let kind = if rev { "rtw" } else { "tw" };
+                                    if rev != cap.is_some() && rev {
+                                        return None;
+                                    }
+                                    return Some((kind.into(), (*it.receiver).clone(), pi.ident.clone(), (*c.body).clone(), cap));
+                                }
+                            }
+                        }
+                    }
+                }
+            }
+        }
     }
     if top.method == "unwrap_or" && top.args.len() == 1 {
         let Expr::MethodCall(mn) = &*top.receiver else { return None };
@@ -1310,8 +1542,57 @@ impl<'a> VisitMut for Body<'a> {
                 return;
             }
         }
+        // R19 (expression form): `X.or_else(|| BODY)` with a lift entry for the closure -> `{ let __o = X; if __o.is_none() { f(args) } else { __o } }`
+        if let Expr::MethodCall(m) = e {
+            if m.method == "or_else" && m.args.len() == 1 && matches!(&m.args[0], Expr::Closure(c) if c.inputs.is_empty()) {
+                let short = self.func.rsplit("::").next().unwrap().to_string();
+                // closures inside the receiver are numbered first
+                let mut recv = (*m.receiver).clone();
+                self.visit_expr_mut(&mut recv);
+                let ordinal = self.closure_counter;
+                if let Some(spec) = self.unit.lift.iter().find(|l| (l.func == short || l.func == self.func) && l.closure == ordinal).cloned() {
+                    let Expr::Closure(c) = &m.args[0] else { unreachable!() };
+                    let mut f: ItemFn = syn::parse_str(&format!("fn {}({}) -> {} {{ }}", spec.name, spec.params, spec.ret)).unwrap_or_else(|er| fail(&format!("bad lift spec {}: {er}", spec.name)));
+                    let body: Block = match &*c.body {
+                        Expr::Block(b) => b.block.clone(),
+                        other => parse_quote!({ #other }),
+                    };
+                    f.block = Box::new(body);
+                    self.lifted.push(Item::Fn(f));
+                    struct Cnt(usize);
+                    impl VisitMut for Cnt {
+                        fn visit_expr_closure_mut(&mut self, c: &mut ExprClosure) {
+                            self.0 += 1;
+                            visit_mut::visit_expr_closure_mut(self, c);
+                        }
+                    }
+                    let mut cnt = Cnt(0);
+                    let mut cc = c.clone();
+                    cnt.visit_expr_mut(&mut cc.body);
+                    self.closure_counter = ordinal + 1 + cnt.0;
+                    let call: Expr = syn::parse_str(&format!("{}({})", spec.name, spec.args)).unwrap_or_else(|er| fail(&format!("bad lift args: {er}")));
+                    let k = self.fresh();
+                    let o = ident(&format!("__o{k}"));
+                    self.note("R19", format!("closure {}#{} of `.or_else(..)` lifted into fn {}", short, ordinal, spec.name));
+                    *e = parse_expr(quote!({ let #o = #recv; if #o.is_none() { #call } else { #o } }));
+                    return;
+                } else {
+                    // no lift entry: restore normal processing on the already visited receiver
+                    m.receiver = Box::new(recv);
+                    let mut args = m.args.clone();
+                    for a in args.iter_mut() {
+                        self.visit_expr_mut(a);
+                    }
+                    m.args = args;
+                    self.rewrite_expr_post(e);
+                    return;
+                }
+            }
+        }
         if let Expr::Closure(cl) = e {
-            let key = format!("{}#{}", self.func.rsplit("::").next().unwrap(), self.closure_counter);
+            let qkey = format!("{}#{}", self.func, self.closure_counter);
+            let skey = format!("{}#{}", self.func.rsplit("::").next().unwrap(), self.closure_counter);
+            let key = if self.unit.closure_sig.contains_key(&qkey) { qkey } else if self.unit.closure_sig.keys().any(|k| k.contains("::") && k.ends_with(&format!("::{}", skey))) { format!("<none>#{}", self.closure_counter) } else { skey };
             self.closure_counter += 1;
             if let Some(sig) = self.unit.closure_sig.get(&key) {
                 // R17: explicit parameter types, return type and a block body (annotation only; body text unchanged)
